@@ -177,6 +177,14 @@ func C03M(j *core.Job) {
 	runProfile(j, checkCfg{prop: "C03", profile: "matrix", oracle: "refeq", argVecs: 5})
 }
 
+func C04M(j *core.Job) {
+	runProfile(j, checkCfg{prop: "C04", profile: "matrix", oracle: "refeq", argVecs: 5})
+}
+
+func C06M(j *core.Job) {
+	runProfile(j, checkCfg{prop: "C06", profile: "matrix", oracle: "refeq", argVecs: 5})
+}
+
 func C05M(j *core.Job) {
 	runProfile(j, checkCfg{prop: "C05", profile: "matrix", oracle: "refeq", argVecs: 5})
 }
